@@ -13,7 +13,7 @@ from ..runner import ShardResult
 
 ID = "C09"
 LEVEL = "fault_enumeration"
-RULE = ("(a) single calls: the 25 (start state, call) cases of C13/C10 plus store_object of contents of 0, 1, "
+RULE = ("(a) single calls: the 29 (start state, call) cases of C13/C10 plus store_object of contents of 0, 1, "
         "buffer+1 and 5*buffer bytes and metadata overwrites v1->v2 / v2->v1 of different lengths; an observer runs "
         "after EVERY intercepted file-system operation of the writer (including the flush half of in-place "
         "truncates and buffer flushes at close) and reads every file at a permanent address the way a concurrent "
